@@ -3,7 +3,7 @@
    quantified over texts, trees, record lists and diff scripts of any size. *)
 From Coq Require Import String Ascii.
 From Coq Require Import List Bool NArith PArith Arith.
-From PV Require Import Base.PyData C03.Model C03.Check C03.Proofs C03.Proofs2 C03.Proofs3 C03.Proofs4.
+From PV Require Import Base.PyData C03.Model C03.Check C03.Proofs C03.Proofs2 C03.Proofs3 C03.Proofs4 C03.Proofs5.
 Import ListNotations.
 
 (* ---- 1. NMTranParser.parse: record splitting ------------------------------------------------ *)
@@ -234,3 +234,52 @@ Theorem update_sizes_insert_before_problem :
     sizes_rule A rname false l = true ->
     sizes_rule A rname false l' = true /\ exists pre post, l = pre ++ post /\ l' = pre ++ new :: post.
 Proof. exact update_sizes_insert_keeps_rule. Qed.
+
+(* ---- 8. update_source as a program of edit-method calls: the frame of a whole edit --------------------- *)
+
+(* For every record list, every set K of record kinds and every program of insert_record / remove_records /
+   replace_records / replace_all calls in which each call either involves only records of the kinds K or leaves all
+   names and texts alone (e.g. replace_all with regenerated, textually identical records): the records of every kind
+   outside K have byte-identical texts, in the same order, afterwards.  K is instantiated by the check with
+   `touched_kinds` (regenerated from model.py / update.py) of the components the edit changed, and `calls_ok` is
+   evaluated on the real call trace of every update_source(). *)
+Theorem edit_frame :
+  forall (A : Type) (rname : A -> text) (rid : A -> positive) (rstr : A -> text) (order : list text)
+         (K : list text) (cs : list (ecall A)) (l l' : list A),
+    calls_ok A rname rid rstr order K l cs = true ->
+    run_calls A rname rid order l cs = Some l' ->
+    fview A rname rstr K l' = fview A rname rstr K l.
+Proof. exact edit_frame_lemma. Qed.
+
+(* ---- 9. parse without the engine (malformed / grammar-independent stream classes) ------------------------ *)
+
+(* A text in which no line starts with blanks + '$' (no record at all; any bytes, NUL, lone CR ...) is always accepted as
+   one RawRecord — for every engine, no hypothesis — and therefore round-trips. *)
+Theorem parse_without_records :
+  forall tb lark steps_of rule_id is_token_name r1 r2 r3 r4 r5 (t : text),
+    has_record t = false ->
+    parse tb lark steps_of rule_id is_token_name r1 r2 r3 r4 r5 t = Ok (match t with [] => [] | _ => [RawRec [] [] t] end).
+Proof. exact parse_without_records_lemma. Qed.
+
+(* When no chunk carries the name of a known record (unknown records, refused names), the result of parse does not depend
+   on the engine or on the post-processors at all ... *)
+Theorem parse_engine_independent :
+  forall tb lark steps_of rule_id is_token_name r1 r2 r3 r4 r5 lark2 steps_of2 (t : text),
+    raw_only tb t = true ->
+    parse tb lark steps_of rule_id is_token_name r1 r2 r3 r4 r5 t = parse tb lark2 steps_of2 rule_id is_token_name r1 r2 r3 r4 r5 t.
+Proof. exact parse_engine_irrelevant. Qed.
+
+(* ... and the round trip holds without the lark contract hypothesis. *)
+Theorem record_roundtrip_raw :
+  forall tb lark steps_of rule_id is_token_name r1 r2 r3 r4 r5 (t : text) (rs : list record),
+    raw_only tb t = true ->
+    parse tb lark steps_of rule_id is_token_name r1 r2 r3 r4 r5 t = Ok rs -> stream_str rs = t.
+Proof. exact parse_raw_roundtrip. Qed.
+
+(* A text whose last line consists of blanks and a bare '$' is refused (ModelSyntaxError: bad record name) whatever
+   precedes it and whatever the engine does — so it can never violate the round trip. *)
+Theorem dollar_at_eof_refused :
+  forall tb lark steps_of rule_id is_token_name r1 r2 r3 r4 r5 (pre bl : text),
+    (pre = [] \/ exists p0, pre = p0 ++ [10%N]) -> forallb is_blank bl = true ->
+    forall rs, parse tb lark steps_of rule_id is_token_name r1 r2 r3 r4 r5 (pre ++ bl ++ [36%N]) <> Ok rs.
+Proof. exact dollar_at_eof_refused_lemma. Qed.
